@@ -2,9 +2,9 @@
    Property theorems only; each is closed by [exact <lemma>] and followed by Print Assumptions.
 
    Vocabulary (defined in Model/Styler.v, Model/Table.v, Proofs/Styler.v, Proofs/Table.v):
-   - [strip] is StripAllAnsiSequences (regexp \x1b\[[\d;]+m, leftmost, non-overlapping);
+   - [strip] is StripAllAnsiSequences (regexp \x1b\[[\d;]*m, leftmost, non-overlapping);
      [vis_len s] = rune count of [strip s] = the property's "number of visible characters";
-   - [sgr_seq m]: m is one complete sequence ESC [ (digits and ;)+ m;  [sgrs s]: s is a concatenation of them;
+   - [sgr_seq m]: m is one complete sequence ESC [ (digits and ;)* m;  [sgrs s]: s is a concatenation of them;
    - [theme_ok th]: every unit a styler of theme th can emit (reset, underline, bold, prefix+code+suffix
      for every code of its table) is a concatenation of complete sequences;
    - a document is a list of [piece]s (Plain text | Styled props kids); [render_doc th doc] nests
@@ -82,7 +82,8 @@ Theorem C18_strip_app : forall a b,
 Proof. exact (fun a b => conj (strip_app_nospan a b) (conj (strip_app_closed a b) (fun s => strip_app_sgrs a s b))). Qed.
 Print Assumptions C18_strip_app.
 
-(* strip is NOT idempotent in general: removing ESC[0m from ESC[ ESC[0m 3m leaves ESC[3m *)
+(* strip is NOT idempotent in general (also with the pattern of 332f4bb): removing ESC[0m from
+   ESC[ ESC[0m 3m leaves ESC[3m *)
 Theorem C18_strip_idempotent_refuted : exists s, strip (strip s) <> strip s.
 Proof. exact (ex_intro _ idem_witness strip_not_idempotent). Qed.
 Print Assumptions C18_strip_idempotent_refuted.
@@ -164,13 +165,13 @@ Proof.
 Qed.
 Print Assumptions C18_commands_neutral_partial.
 
-(* "strip removes every SGR sequence" is false of the faithful model: the pattern needs at least one
-   parameter byte, so the parameterless reset ESC [ m is kept and counted as 3 visible characters.
-   Replayed on the implementation this is known finding K18 (`klog tags --values` with a quoted tag
-   value that contains ESC [ m prints that row 3 characters short) *)
-Theorem C18_strip_all_sgr_refuted : exists m, sgr_any m /\ strip m = m /\ vis_len m = 3.
-Proof. exact (ex_intro _ _ strip_parameterless). Qed.
-Print Assumptions C18_strip_all_sgr_refuted.
+(* strip removes every SGR sequence ESC [ (digit | ;)* m, parameters or not (in particular the reset
+   ESC [ m, which the pattern of the code before 332f4bb missed: fixed finding K18): nothing of it is
+   left, it shows zero characters, and what follows it is stripped as if it were not there *)
+Theorem C18_strip_removes_every_sgr : forall m, sgr_seq m ->
+  strip m = [] /\ vis_len m = 0 /\ forall r, strip (m ++ r) = strip r.
+Proof. exact strip_removes_sgr. Qed.
+Print Assumptions C18_strip_removes_every_sgr.
 
 (* ---- 3. tables ---- *)
 
@@ -230,6 +231,10 @@ Proof. exact table_wide_fill. Qed.
 Print Assumptions C18_table_wide_fill_refuted.
 
 (* ---- non-vacuity ---- *)
+
+(* the parameterless reset and a 256-colour sequence are SGR sequences *)
+Example C18_nonvacuous_sgr : sgr_seq (c_esc :: b!"[m") /\ sgr_seq (c_esc :: b!"[38;5;120m").
+Proof. split; [exact sgr_seq_reset|exists b!"38;5;120"; split; reflexivity]. Qed.
 
 (* a summary-shaped document: subdued text with a bold tag inside, user text that ends in an ESC
    fragment right before the tag and a text that starts with "1m" right after a quoted tag value:
